@@ -146,6 +146,9 @@ def check_primitives(res, rng, reps):
         if not near(img, up(k * a), mag(up(k * a)), 1e-8):
             res.violate('dilation rotor does not map the point of x to the point of k*x', dict(inp, k=k), img.value.tolist(), up(k * a).value.tolist(), dict(site, op='dilation-rotor'))
         th = float(rng.uniform(0.1, 3.0))
+        if rng.random() < 0.4:
+            # half turns and their neighbourhood: trace(M) -> -1, where the trace formula of the matrix -> quaternion conversion is 0/0
+            th = float(rng.choice([math.pi, math.pi - 1e-8, math.pi - 1e-6, math.pi - 1e-4, 2.0 * math.pi / 3.0, math.pi / 2]))
         m, n_ = nz_vec(rng, t), nz_vec(rng, t)
         if float(abs(m ^ n_)) > 0.5:
             Rr = t.generate_rotation_rotor(th, m, n_)
@@ -165,7 +168,7 @@ def check_primitives(res, rng, reps):
             v = nz_vec(rng, t)
             rot_v = (Rr * v * ~Rr).value[1:4]
             ok = near(R2, Rr, 1.0, 1e-9) and (near(R3, Rr, 1.0, 1e-8) or near(R3, -Rr, 1.0, 1e-8)) and near(Mx @ v.value[1:4], rot_v, mag(v), 1e-9) \
-                and near(g3.quaternion_to_matrix(q), Mx, 1.0, 1e-12) and near(np.array(g3.rotation_matrix_to_quaternion(Mx)) * np.sign(g3.rotation_matrix_to_quaternion(Mx)[0] * q[0] or 1), q, 1.0, 1e-8)
+                and near(g3.quaternion_to_matrix(q), Mx, 1.0, 1e-12) and (near(np.array(g3.rotation_matrix_to_quaternion(Mx)), q, 1.0, 1e-8) or near(-np.array(g3.rotation_matrix_to_quaternion(Mx)), q, 1.0, 1e-8))
             if not ok:
                 res.violate('quaternion / matrix / rotor conversions do not round-trip or act differently on vectors', dict(inp, theta=th), None, None, dict(site, op='conversions'))
         # line-plane intersection lies on both
